@@ -155,8 +155,86 @@ def rename_shuffle(rng, j, rename=True, shuffle=True):
     return out
 
 
+# ---------------------------------------------------------------- characters with interesting case behaviour
+# single-point neighbours (a, b): one is replaced by the other, in either direction.  What the DOCUMENTED
+# comparison says about them (predicates: lower-cased; property values: lower-cased; constants: exact):
+#   ß/ss  ς/σ  ﬁ/fi  ſ/s  İ/i  ı/i   different under lower() but EQUAL under casefold()  -> different predicates
+#   Σ/σ  K(Kelvin)/k  A/a               equal under lower()                                  -> the SAME predicate
+#   é / e+U+0301, full-width/ASCII     equal only under NFC / NFKC                          -> different predicates
+#   İ (lower() has length 2), ŉ, ǆ/ǅ   upper()/lower() change length or have title-case forms
+TWINS = [("ß", "ss"), ("ς", "σ"), ("ﬁ", "fi"), ("ſ", "s"), ("İ", "i"), ("ı", "i"), ("I", "ı"),
+         ("Σ", "σ"), ("Σ", "ς"), ("\u212a", "k"), ("\u212a", "K"), ("é", "e\u0301"), ("É", "é"),
+         ("ａ", "a"), ("Ａ", "ａ"), ("ŉ", "ʼn"), ("ǆ", "ǅ"), ("ǆ", "dž"), ("ẞ", "ß"), ("ẞ", "SS"), ("µ", "μ")]
+
+UNI_PREDS = ["_straße_n_1", "_strasse_n_1", "_λόγος_n_1", "_λόγοσ_n_1", "_ﬁsh_n_1", "_fish_n_1", "_ſee_v_1",
+             "_see_v_1", "_İstanbul_n_1", "_istanbul_n_1", "_ıstanbul_n_1", "_café_n_1", "_cafe\u0301_n_1",
+             "_ΣΟΦΌΣ_a_1", "_σοφός_a_1", "_ａｂｃ_n_1", "_abc_n_1", "_\u212aelvin_n_1", "_kelvin_n_1", "_kiss_v_1",
+             "_µ_n_1", "_ǆem_n_1"]
+UNI_CARGS = ["Straße", "Strasse", "STRASSE", "Σίσυφος", "σίσυφος", "İzmir", "Izmir", "ﬁn", "fin", "Ｋｉｍ"]
+UNI_VALUES = ["ß", "ss", "SS", "Σ", "σ", "ς", "İ", "i", "ſg", "sg"]
+
+
+def twin_variants(s):
+    """all strings obtained from `s` by ONE replacement: a twin pair at one position, or the case of one letter"""
+    out = []
+    for a, b in TWINS:
+        for x, y in ((a, b), (b, a)):
+            i = s.find(x)
+            while i >= 0:
+                out.append(s[:i] + y + s[i + len(x):])
+                i = s.find(x, i + 1)
+    for i, c in enumerate(s):
+        if c.swapcase() != c:
+            out.append(s[:i] + c.swapcase() + s[i + 1:])
+    return sorted(set(v for v in out if v != s))
+
+
+def _ascii_lower(s):
+    return "".join(chr(ord(c) + 32) if "A" <= c <= "Z" else c for c in s)
+
+
+def _ascii_upper(s):
+    return "".join(chr(ord(c) - 32) if "a" <= c <= "z" else c for c in s)
+
+
+def model_covers(j):
+    """the Lean model maps case for ASCII letters only: it covers a structure iff Python's lower()/upper()
+    act on its predicates, property names and property values exactly like the ASCII-only maps"""
+    for e in j["rels"]:
+        if e["pred"].lower() != _ascii_lower(e["pred"]):
+            return False
+    for _, ps in j.get("vars", []):
+        for k, v in ps:
+            if k.upper() != _ascii_upper(k) or v.lower() != _ascii_lower(v):
+                return False
+    return True
+
+
+def is_ascii_struct(j):
+    return all(ord(c) < 128 for c in json.dumps(j, ensure_ascii=False))
+
+
+def unicodeify(rng, j):
+    """the same structure over an alphabet of predicates / constants / property values with non-ASCII letters"""
+    j = copy.deepcopy(j)
+    preds = sorted({e["pred"] for e in j["rels"] if not is_quant(e)})
+    pool = list(UNI_PREDS)
+    rng.shuffle(pool)
+    ren = {p: pool[i % len(pool)] for i, p in enumerate(preds)}
+    for e in j["rels"]:
+        if e["pred"] in ren and rng.random() < 0.8:
+            e["pred"] = ren[e["pred"]]
+        if e.get("carg") is not None and rng.random() < 0.7:
+            e["carg"] = rng.choice(UNI_CARGS)
+    for _, ps in j["vars"]:
+        for kv in ps:
+            if rng.random() < 0.4:
+                kv[1] = rng.choice(UNI_VALUES)
+    return j
+
+
 MUTATIONS = ["pred", "argtarget", "argrole", "argdrop", "argadd", "carg", "prop", "propadd", "hcons", "hcrel",
-             "icons", "label", "predcase", "propcase"]
+             "icons", "label", "predcase", "propcase", "predtwin", "cargtwin", "proptwin", "roletwin"]
 
 
 def mutate(rng, j, what, fresh=False):
@@ -173,6 +251,35 @@ def mutate(rng, j, what, fresh=False):
         e = rng.choice(rels)
         others = sorted({x["pred"] for x in rels if x["pred"] != e["pred"]})
         e["pred"] = "_zz_v_9" if (fresh or not others) else rng.choice(others)
+        return j
+    if what == "predtwin":      # the NEAREST neighbour: one character replaced by its case / casefold / NFC / NFKC twin
+        cands = [(e, v) for e in rels for v in twin_variants(e["pred"])]
+        if not cands:
+            return None
+        e, v = rng.choice(cands)
+        e["pred"] = v
+        return j
+    if what == "cargtwin":
+        cands = [(e, v) for e in rels if e.get("carg") for v in twin_variants(e["carg"])]
+        if not cands:
+            return None
+        e, v = rng.choice(cands)
+        e["carg"] = v
+        return j
+    if what == "proptwin":
+        cands = [(ps, i, v) for _, ps in j["vars"] for i in range(len(ps)) for v in twin_variants(ps[i][1])]
+        if not cands:
+            return None
+        ps, i, v = rng.choice(cands)
+        ps[i][1] = v
+        return j
+    if what == "roletwin":
+        cands = [(e, i, v) for e in rels for i, (r, _) in enumerate(e["args"]) if r not in ("ARG0", "RSTR")
+                 for v in twin_variants(r) if v not in {x for x, _ in e["args"]} and v not in ("ARG0", "RSTR")]
+        if not cands:
+            return None
+        e, i, v = rng.choice(cands)
+        e["args"][i][0] = v
         return j
     if what == "predcase":      # NOT a change: another spelling of the same predicate
         e = rng.choice(rels)
@@ -732,10 +839,18 @@ class C06(Check):
             "constants with properties, semgen scope trees, mildly ill-formed (one EP without ARG0, unbound "
             "variables, missing top); 0-7 predications for the exhaustive oracle (all structures with <= 2 "
             "predications over 2 predicates enumerated), 8-40 for the invariance clauses; bags of 0-6 structures with "
-            "planted renamed copies. Non-trivial: at least one predication; distinct by JSON text.")
+            "planted renamed copies; 30% of the structures over a non-ASCII alphabet of predicates / constants / "
+            "property values (ß/ss, ς/σ/Σ, ﬁ/fi, ſ/s, İ/ı/i, Kelvin sign, é vs e+U+0301, full-width, ǆ/ǅ) and the "
+            "single-point mutations predtwin/cargtwin/proptwin/roletwin replace ONE character by its case, casefold, "
+            "NFC or NFKC twin. Non-trivial: at least one predication; distinct by JSON text.")
     assumptions = [
         "input space: every non-quantifier predication has its own intrinsic variable (at most one predication "
         "without ARG0), no parallel constraints; ASCII names, no whitespace inside role names",
+        "the Lean model maps case for ASCII letters only; a case whose predicates / property names / property values "
+        "contain a letter on which Python's lower()/upper() differs from the ASCII-only map is not sent to the model "
+        "and is decided by the direct oracle alone (documented comparison: predicates lower-cased after stripping quotes "
+        "and _rel, property names upper-cased and values lower-cased, constants and roles exact); non-ASCII letters "
+        "that lower() leaves alone (ß, ς, ﬁ, ſ, ı, é, full-width lower case) ARE compared with the model",
         "outside the input space (coordinator's decision), kept as correspondence-only corpus cases: predications "
         "sharing an intrinsic variable or two predications without ARG0 (the verdict then depends on the order of "
         "the predications: the first one owns the graph node); role names starting with '--' (the inverse-edge "
@@ -775,11 +890,13 @@ class C06(Check):
         if rng.random() < 0.3:
             yield mk("shuffled", m, rename_shuffle(rng, m, rename=False), not props)
         whats = rng.sample(MUTATIONS, 3 if not big else 2)
+        if rng.random() < 0.5:
+            whats.append(rng.choice(["predtwin", "predtwin", "cargtwin", "proptwin"]))
         for what in whats:
             mu = mutate(rng, m, what, fresh=(big and rng.random() < 0.5))
             if mu is None or not in_space(mu):
                 continue
-            yield mk("mutant:" + what, m, rename_shuffle(rng, mu), props if what not in ("prop", "propadd", "propcase") else rng.random() < 0.8)
+            yield mk("mutant:" + what, m, rename_shuffle(rng, mu), props if what not in ("prop", "propadd", "propcase", "proptwin") else rng.random() < 0.8)
 
     def cases(self, rng, tier, n):
         # deterministic part: all small structures against a renamed copy and against each other
@@ -808,6 +925,8 @@ class C06(Check):
             m = gen_family(rng, fam, big=big)
             if not in_space(m):
                 continue
+            if rng.random() < 0.3:
+                m = unicodeify(rng, m)
             if big:
                 nbig += 1
             if r < 0.2 and not big:
@@ -825,13 +944,13 @@ class C06(Check):
         for _ in range(rng.choice([1, 2, 3, 4])):
             m = gen_family(rng, rng.choice(["random", "cycle", "mutual", "cargprops", "star"]))
             if in_space(m):
-                pool.append(m)
+                pool.append(unicodeify(rng, m) if rng.random() < 0.4 else m)
         if not pool:
             pool = [gen_cycle(rng, 2)]
         # near copies: single-point mutants of pool members
         for m in list(pool):
             if rng.random() < 0.5:
-                mu = mutate(rng, m, rng.choice(MUTATIONS))
+                mu = mutate(rng, m, rng.choice(MUTATIONS + ["predtwin", "predtwin", "cargtwin"]))
                 if mu is not None and in_space(mu):
                     pool.append(mu)
         sub = rng.choice(["random", "random", "selfcopy", "disjoint"])
@@ -899,6 +1018,9 @@ class C06(Check):
             return {"err": "Nonterminating"}
 
     def model_request(self, case):
+        structs = (case["test"] + case["gold"]) if case["kind"] == "bags" else [case["m1"], case["m2"]]
+        if not all(model_covers(j) for j in structs):
+            return None       # case mapping of non-ASCII letters is not modelled: the direct oracle decides
         if case["kind"] == "bags":
             return {"op": "bags", "test": case["test"], "gold": case["gold"], "props": case["props"]}
         return {"op": "iso", "m1": case["m1"], "m2": case["m2"], "props": case["props"]}
@@ -1026,6 +1148,10 @@ class C06(Check):
         def inc(k):
             counters[k] = counters.get(k, 0) + 1
         inc("kind:" + case["kind"])
+        structs = (case["test"] + case["gold"]) if case["kind"] == "bags" else [case["m1"], case["m2"]]
+        if not all(is_ascii_struct(j) for j in structs):
+            inc("alphabet:non-ASCII")
+            inc("alphabet:non-ASCII, model %s" % ("compared" if all(model_covers(j) for j in structs) else "skipped (case map of non-ASCII letters)"))
         if case["kind"] == "bags":
             inc("bags:" + case.get("sub", ""))
             inc("bags:test=%d" % len(case["test"]))
